@@ -10,7 +10,7 @@ CONSTANTS
   MaxOpens = 1
   Ids = {1}
   Hosts = {"h0"}
-  MaxWrites = 2
+  MaxWrites = 1
   Writers = {"A", "B"}
   Lens = {1}
   ReadMax = {4}
